@@ -95,6 +95,11 @@ fn run_world(a: &Atk, with_attacks: bool) -> RunOut {
     if with_attacks {
         w.attacks = a.attacks.clone();
     }
+    // the link-side amplification ledger is keyed by remote address and assumes one connection per
+    // address; with two connections from one client endpoint it would stop the run spuriously
+    // (attacker copies also change what quinn and the ledger credit at the Incoming stage; the
+    // anti-amplification limit is C07's business, in worlds built for it)
+    w.check_amp = false;
     let _ = w.connect(CLIENT_EP, ConnLoad { client: x.client.clone(), server: x.server.clone() });
     if a.second {
         let _ = w.connect(CLIENT_EP, ConnLoad { client: x.server.clone(), server: x.client.clone() });
@@ -139,7 +144,7 @@ fn case_inner(a: &Atk) -> CaseOut {
     }
     for v in r1.w.collect_violations() {
         // integrity oracles of the application model apply under attack as well
-        if v.sig.starts_with("c01/") || v.sig.starts_with("c16/") || v.sig.starts_with("drive/") || v.sig.starts_with("c20/") || v.sig.starts_with("c08/") {
+        if v.sig.starts_with("c01/") || v.sig.starts_with("c16/") || v.sig.starts_with("drive/") || v.sig.starts_with("c20/") || v.sig.starts_with("c08/") || v.sig.starts_with("c09/") {
             return CaseOut::fail(format!("{}@under-attack", v.sig), v.msg);
         }
     }
